@@ -4,6 +4,7 @@ from __future__ import annotations
 
 from .common import *  # noqa: F403
 from ..astutil import assignments_to, iter_stmts
+from ..loader import ancestors
 from ..cfg import GENERIC, handler_classes, match_handler
 
 
@@ -549,3 +550,85 @@ def count_failure_sites_rule(chk: Check, rule: str, why_other: str, why_missing:
     for q in sorted(allowed - seen):
         chk.violation(rule, q, "count_failure call site", why_missing, q.split(":")[0])
     return sites
+
+
+# ------------------------------------------------------------------------------------------------- keyed lost update
+def _const_key_sets(P: Project, call: ast.Call) -> set[str] | None:
+    """Keys of the mapping a call returns, when every function of that name returns a dict display with constant keys."""
+    name = last_attr(call)
+    cands = [f for f in P.find_function_by_name(name or "") if not isinstance(f.node, ast.Lambda)]
+    if not cands:
+        return None
+    keys: set[str] = set()
+    for f in cands:
+        rets = simple_return_expr(f)
+        if not rets:
+            return None
+        for r in rets:
+            if not isinstance(r, ast.Dict) or any(k is None or not (isinstance(k, ast.Constant) and isinstance(k.value, str)) for k in r.keys):
+                return None
+            keys |= {k.value for k in r.keys}  # type: ignore[union-attr]
+    return keys
+
+
+def keyed_lost_update_rule(chk: Check, rule: str, what: str, floor: int) -> None:
+    """LOST-UPDATE(keyed container): a local mapping is first filled under variable keys from a mapping whose key set is
+    known (`for k, v in X.f(...).items(): D[k] = v`), and later stored under a constant key that belongs to that set
+    (`D["headers"] = ...`).  The later store must merge (its value reads `D` at that key) or be guarded by
+    `"headers" not in D`; otherwise whatever the first source supplied under that key is silently replaced."""
+    chk.rule(rule, f"LOST-UPDATE({what}): where a local mapping is filled under the keys of a known mapping and later stored under a constant key of that same key set, the later store merges with what is there (reads the container at that key) or is guarded by an absence test - a plain assignment silently drops the first source's entry", floor=floor)
+    P = chk.project
+    for fn in P.all_functions():
+        if isinstance(fn.node, ast.Lambda):
+            continue
+        fills = []
+        for lp in walk_body(fn.node):
+            if not isinstance(lp, ast.For) or not (isinstance(lp.target, ast.Tuple) and len(lp.target.elts) == 2 and isinstance(lp.target.elts[0], ast.Name)):
+                continue
+            m = pmatch("$X.items()", lp.iter)
+            if m is None or not isinstance(m["X"], ast.Call):
+                continue
+            kname = lp.target.elts[0].id
+            for s in iter_stmts(lp.body):
+                if isinstance(s, ast.Assign) and len(s.targets) == 1 and isinstance(s.targets[0], ast.Subscript) and isinstance(s.targets[0].value, ast.Name) and isinstance(s.targets[0].slice, ast.Name) and s.targets[0].slice.id == kname:
+                    fills.append((lp, s, s.targets[0].value.id, m["X"]))
+        if not fills:
+            continue
+        g = cfg_of(fn)
+        for lp, fill, dname, src in fills:
+            keys = _const_key_sets(P, src)
+            later = [s for s in walk_body(fn.node) if isinstance(s, (ast.Assign, ast.AnnAssign)) and s is not fill
+                     and isinstance((t := (s.targets[0] if isinstance(s, ast.Assign) else s.target)), ast.Subscript)
+                     and isinstance(t.value, ast.Name) and t.value.id == dname and isinstance(t.slice, ast.Constant) and isinstance(t.slice.value, str)
+                     and not any(a is lp for a in ancestors(s))]
+            for s in later:
+                t = s.targets[0] if isinstance(s, ast.Assign) else s.target
+                key = t.slice.value  # type: ignore[union-attr]
+                construct = f"{dname}[{key!r}] = ... after the fill from {unparse(src.func, 50)}(...)"
+                if g.path(g.stmt_nodes_containing(fill), g.stmt_nodes_containing(s)) is None:
+                    continue
+                if keys is None:
+                    chk.candidate(rule, fn, construct, "key set of the first source is not a constant dict display - not decided", fn.loc(s))
+                    continue
+                if key not in keys:
+                    chk.ok(rule, fn, construct, f"{key!r} is not among the first source's keys {sorted(keys)}", fn.loc(s))
+                    continue
+                def _reads(val: ast.AST | None, depth: int = 0, seen: frozenset[str] = frozenset()) -> bool:
+                    if val is None or depth > 4:
+                        return False
+                    for n in ast.walk(val):
+                        if isinstance(n, ast.Subscript) and isinstance(n.value, ast.Name) and n.value.id == dname and isinstance(n.slice, ast.Constant) and n.slice.value == key:
+                            return True
+                        if isinstance(n, ast.Call) and isinstance(n.func, ast.Attribute) and n.func.attr in ("get", "pop", "setdefault") and isinstance(n.func.value, ast.Name) and n.func.value.id == dname and n.args and isinstance(n.args[0], ast.Constant) and n.args[0].value == key:
+                            return True
+                    # through plain locals: `h = dict(D.get(K, {})); h.update(...); D[K] = h`
+                    return any(_reads(v, depth + 1, seen | {nm}) for nm in names_in(val) - seen - {dname} for _, v in assignments_to(fn.node, nm) if v is not None)
+
+                reads = _reads(s.value)
+                guarded = any(isinstance(a, ast.If) and any(isinstance(c, ast.Compare) and len(c.ops) == 1 and isinstance(c.ops[0], ast.NotIn) and isinstance(c.left, ast.Constant) and c.left.value == key and isinstance(c.comparators[0], ast.Name) and c.comparators[0].id == dname for c in ast.walk(a.test)) and any(s is x or any(p is x for p in ancestors(s)) for x in a.body) for a in ancestors(s))
+                if reads or guarded:
+                    chk.ok(rule, fn, construct, "merges with the entry already stored" if reads else "guarded by an absence test", fn.loc(s))
+                else:
+                    chk.violation(rule, fn, construct,
+                                  f"`{dname}[{key!r}]` was filled from `{unparse(src, 60)}` (keys {sorted(keys)}) and is then assigned without reading it: when both sources are configured the first one's values under {key!r} are dropped (e.g. `--set-header` values vanish as soon as `--header` is given)",
+                                  fn.loc(s))
